@@ -41,6 +41,9 @@ def configs(tier):
         c += [_const(7, 32, mlw=None), _const(6, 32, mlw=16)]
         c += [_const(L, 32, "big") for L in (5, 8)]
         c += [_ser(2, 2), _ser(3, None), _ser(4, 3)]
+        # data longer than the max_length counter can count: max_length near the top of its range makes
+        # bytes_sent + bytes_per_word exceed 2**max_length_width (the sum must widen, not wrap)
+        c += [_const(20, 32, mlw=4)]
         return c
     c = []
     for L in range(1, 10):
@@ -53,6 +56,9 @@ def configs(tier):
     for L in range(1, 7):
         for mlw in (None, 1, 3, 16):
             c.append(_ser(L, mlw))
+    # data longer than the max_length counter range (see quick tier)
+    c += [_const(18, 8, mlw=4), _const(20, 32, mlw=4), _const(24, 32, mlw=4), _const(22, 32, "big", mlw=4),
+          _const(40, 32, mlw=5), _ser(10, 3)]
     return c
 
 
